@@ -364,6 +364,48 @@ HANDWRITTEN_GENERIC = [
     "ResultTTree(Select(EventDataset('ds'), lambda e: (e.PRIM('A').Count(), e.SEC('B').Count())), ('na', 'nb'), 'mytree', 'out.root')",
     "ResultTTree(Select(EventDataset('ds'), lambda e: e.PRIM('A').Select(lambda j: j.pt())), 'pts', 't1', 'out.root')",
 ]
+def _precedence_family():
+    "every pair of binary operators in both groupings: the emitted expression must keep the query's grouping"
+    ops = ["+", "-", "*", "/", "%"]
+    a, b, c = "j.pt()", "j.eta()", "j.nTrk()"
+    out = []
+    for o1 in ops:
+        for o2 in ops:
+            if "%" in (o1, o2):
+                a_, b_, c_ = "j.nTrk()", "j.ivals().Count()", "3"     # % on non-negative ints only (as the properties say)
+                if o1 == "%" and o2 in ("-",):
+                    continue                                             # right operand of % could be negative
+            else:
+                a_, b_, c_ = a, b, c
+            out.append(f"Select(EventDataset('ds'), lambda e: e.PRIM('A').Select(lambda j: {a_} {o1} ({b_} {o2} {c_})))")
+            out.append(f"Select(EventDataset('ds'), lambda e: e.PRIM('A').Select(lambda j: ({a_} {o1} {b_}) {o2} {c_}))")
+    out.append("Select(EventDataset('ds'), lambda e: e.PRIM('A').Select(lambda j: -(j.pt() - j.eta())))")
+    out.append("Select(EventDataset('ds'), lambda e: e.PRIM('A').Select(lambda j: -(j.pt() * j.eta()) ** 2))")
+    out.append("Select(EventDataset('ds'), lambda e: e.PRIM('A').Select(lambda j: (j.pt() + 1) ** 2 / (j.eta() + 3) ** 2))")
+    out.append("Select(EventDataset('ds'), lambda e: e.PRIM('A').Select(lambda j: not (j.pt() > 1 and j.eta() > 1) or j.isGood()))")
+    out.append("Select(EventDataset('ds'), lambda e: e.PRIM('A').Select(lambda j: (j.pt() > 1 or j.eta() > 1) and j.isGood()))")
+    out.append("Select(EventDataset('ds'), lambda e: e.PRIM('A').Select(lambda j: (j.pt() if j.isGood() else j.eta()) * 2))")
+    out.append("Select(EventDataset('ds'), lambda e: e.PRIM('A').Select(lambda j: 2 * (j.pt() > j.eta())))")
+    return out
+
+
+HANDWRITTEN_GENERIC += _precedence_family()
+HANDWRITTEN_GENERIC += [
+    # the same collection (same bank) used twice, the first use in a deeper block than the second; several columns from different loops
+    "Select(EventDataset('ds'), lambda e: (e.SEC('B').Select(lambda t: e.PRIM('A').Where(lambda j: j.pt() > t.pt()).Count()), e.PRIM('A').Count()))",
+    "Select(EventDataset('ds'), lambda e: (e.SEC('B').Select(lambda t: e.PRIM('A').Count()), e.PRIM('A').Select(lambda j: j.pt())))",
+    "Select(EventDataset('ds'), lambda e: {'a': e.PRIM('A').Select(lambda j: e.PRIM('A').Count()), 'b': e.PRIM('A').Count()})",
+    "Select(Where(EventDataset('ds'), lambda e: e.PRIM('A').Count() > 0 and e.SEC('B').Count() > 0), lambda e: (e.PRIM('A').First().pt(), e.SEC('B').First().pt()))",
+    "Select(Where(EventDataset('ds'), lambda e: e.PRIM('A').Count() > 0), lambda e: (e.PRIM('A').First().pt(), e.SEC('B').Select(lambda t: t.pt())))",
+    "Select(Where(EventDataset('ds'), lambda e: e.PRIM('A').Count() > 0), lambda e: (e.SEC('B').Select(lambda t: t.pt()), e.PRIM('A').First().pt(), e.SEC('B').Count()))",
+    # an operation applied to an aggregate over a flattened sequence, alone and followed by another column
+    "Select(EventDataset('ds'), lambda e: e.PRIM('A').SelectMany(lambda j: e.SEC('B')).Select(lambda t: t.pt()).Sum() / 1000.0)",
+    "Select(EventDataset('ds'), lambda e: e.PRIM('A').SelectMany(lambda j: j.vals()).Count() + 1)",
+    "Select(EventDataset('ds'), lambda e: (e.PRIM('A').SelectMany(lambda j: j.vals()).Sum() * 2, e.SEC('B').Count()))",
+    "Select(EventDataset('ds'), lambda e: -e.PRIM('A').SelectMany(lambda j: j.vals()).Count())",
+    "Select(EventDataset('ds'), lambda e: e.PRIM('A').SelectMany(lambda j: j.vals()).Count() > 2)",
+    "Select(EventDataset('ds'), lambda e: 1.5 if e.PRIM('A').SelectMany(lambda j: j.vals()).Count() > 2 else 0.5)",
+]
 HANDWRITTEN_GENERIC += [
     # aggregates / First over flattened (SelectMany) sequences
     "Select(EventDataset('ds'), lambda e: e.PRIM('A').SelectMany(lambda j: j.vals()).Count())",
@@ -418,11 +460,16 @@ KIND_EXPRS = {
     "double": "j.pt()", "float": "j.ptf()", "int": "j.nTrk()", "bool": "j.isGood()",
     "div": "j.nTrk() / 2", "cond": "(j.nTrk() if j.isGood() else 2)", "cmp": "j.pt() > j.eta()",
     "boolop": "(j.pt() > 1 and j.isGood())", "sum": "j.nTrk() + 1", "neg": "(-j.nTrk())",
+    # same-kind operands whose result kind differs from the operand kind
+    "boolsum": "((j.pt() > 1.5) + (j.eta() < 2.0))", "boolprod": "(j.isGood() * j.isGood())", "boolneg": "(-j.isGood())",
+    "intdiv": "(j.nTrk() / j.nTrk())", "boolcmpdiff": "((j.pt() > 1.5) - (j.eta() > 1.5))", "notint": "(not j.nTrk())",
+    "floatsum": "(j.ptf() + j.ptf())", "mixed": "(j.ptf() + j.nTrk())", "pow": "(j.nTrk() ** 2)",
 }
 EVENT_KIND_EXPRS = {
     "count": "e.PRIM('A').Count()", "sumd": "e.PRIM('A').Select(lambda j: j.pt()).Sum()",
     "sumi": "e.PRIM('A').Select(lambda j: j.nTrk()).Sum()", "cmp": "e.PRIM('A').Count() > 1",
     "div": "e.PRIM('A').Count() / 2",
+    "boolsum": "((e.PRIM('A').Count() > 2) + (e.PRIM('A').Count() > 4))", "countdiv": "e.PRIM('A').Count() / e.PRIM('A').Count()",
 }
 
 
@@ -547,6 +594,24 @@ def c04_programs(backend, tier):
         add(f"Select(EventDataset('ds'), lambda e: e.PRIM('A').Where(lambda j: {g} and {x} > 1.5).Count())")
         if "e.SEC" not in x:
             add(f"Select(SelectMany(EventDataset('ds'), lambda e: e.PRIM('A')).Where(lambda j: {g}), lambda j: {x})")
+    # element values / filters that do NOT depend on their own loop variable (an outer variable, a constant, an
+    # event-level value): the per-element statement must still run once per surviving element, inside the filters
+    bodies = ["j.pt()", "1", "1.5", "e.PRIM('A').Count()", "j.nTrk()"]
+    filters = ["", ".Where(lambda t: t.pt() > 1.5)", ".Where(lambda t: j.pt() > 1.5)", ".Where(lambda t: t.pt() > j.pt())"]
+    terms = [".First()", ".Sum()", ".Count()", "", ".Aggregate(0.0, lambda a, x: a + x * 2)"]
+    for bi, b in enumerate(bodies):
+        for fi, f in enumerate(filters):
+            for ti, t in enumerate(terms):
+                if tier == "quick" and (bi + fi + ti) % 2 and not (bi == 0 and ti == 0):
+                    continue
+                add(f"Select(EventDataset('ds'), lambda e: e.PRIM('A').Select(lambda j: e.SEC('B'){f}.Select(lambda t: {b}){t}))", tags=("loopfree",))
+    for b in ("1", "1.5", "e.SEC('B').Count()"):
+        for f in ("", ".Where(lambda j: j.pt() > 1.5)"):
+            for t in (".First()", ".Sum()", ""):
+                add(f"Select(EventDataset('ds'), lambda e: e.PRIM('A'){f}.Select(lambda j: {b}){t})", tags=("loopfree",))
+    add("Select(EventDataset('ds'), lambda e: e.PRIM('A').Select(lambda j: j.vals().Where(lambda v: v > 1.5).Select(lambda v: j.pt()).First()))", tags=("loopfree",))
+    add("Select(EventDataset('ds'), lambda e: e.PRIM('A').Select(lambda j: j.vals().Select(lambda v: j.pt()).Sum()))", tags=("loopfree",))
+    add("Select(SelectMany(EventDataset('ds'), lambda e: e.PRIM('A')), lambda j: j.vals().Where(lambda v: v > j.pt()).Select(lambda v: j.eta()).First())", tags=("loopfree",))
     if backend in ("cms_aod", "cms_miniaod"):
         m = "globalTrack"
         cm = "Muons"
@@ -582,8 +647,14 @@ def c12_programs(backend, names=None):
         iargs = list(args)
         iargs[0] = "j.nTrk()"
         icall = f"{fn}({', '.join(iargs)})"
+        # nested: the function as argument of another documented function and with a documented function as its argument
+        inner = list(args)
+        inner[0] = "fabs(j.pt())"
+        nest_in = f"{fn}({', '.join(inner)})"
+        allint = f"{fn}({', '.join(['j.nTrk()', '2', '3'][:ar])})"
         for form, tag in ((call, "standalone"), (f"{call} * 2 + 1", "arith"), (f"{call} > 0.5", "compare"),
-                          (icall, "intarg"), (f"1.5 - {call} / 2", "arith2")):
+                          (icall, "intarg"), (f"1.5 - {call} / 2", "arith2"), (f"sqrt({call})", "nested-outer"), (nest_in, "nested-inner"),
+                          (allint, "allint"), (f"{allint} / 2", "allint-div")):
             q = f"Select(EventDataset('ds'), lambda e: e.{P}('A').Select(lambda j: {form}))"
             out.append(make_program(q, backend, label=fn, tags=("math:" + fn, tag)))
     q = f"Select(EventDataset('ds'), lambda e: e.{P}('A').Select(lambda j: j.pt() ** 2))"
@@ -703,6 +774,29 @@ def c18_programs(backend):
             add(f"Select(EventDataset('ds'), lambda e: e.PRIM('A').Select(lambda j: j.nTrk() * {x} + j.nTrk() * {y}))")
             add(f"Select(EventDataset('ds'), lambda e: ({x}, {y}, e.PRIM('A').Count()))")
             add(f"Select(EventDataset('ds'), lambda e: e.PRIM('A').Select(lambda j: {x} if j.pt() > {y} else j.nTrk()))")
+    # floats whose shortest repr needs 16-17 significant digits, extreme magnitudes, exponent notation: the literal IS the column
+    # (no arithmetic), so the replay compares the printed doubles exactly ('exact')
+    hard = ["0.30000000000000004", "0.3333333333333333", "1234567890123456.0", "9007199254740994.0", "1.7976931348623157e+308",
+            "5e-324", "2.2250738585072014e-308", "1e+16", "1e+22", "123456789.12345679", "1e-05", "6.02214076e+23", "0.1", "2.5", "100000.0",
+            "1e-07", "4.35e-12", "-0.30000000000000004", "-1.7976931348623157e+308"]
+    for k in hard:
+        for tags in ((("literals", "exact"),) if not k.startswith("-") else (("literals", "exact"), ("literals", "exact", "fold_neg"))):
+            out.append(make_program(f"Select(EventDataset('ds'), lambda e: {k})", backend, tags=tags))
+            out.append(make_program(f"Select(EventDataset('ds'), lambda e: e.PRIM('A').Select(lambda j: {k}))".replace("PRIM", P), backend, tags=tags))
+            out.append(make_program(f"Select(EventDataset('ds'), lambda e: ({k}, 1, e.PRIM('A').Count()))".replace("PRIM", P), backend, tags=tags))
+    # negative literals, as source text (-5 = unary minus of 5) and as the single constant node a captured python
+    # variable becomes ('fold_neg'), in every operator context: the literal must not fuse with what precedes it
+    negs = ["-5", "-1.5", "-0.0", "-2147483647", "-1e-05"]
+    ctx = ["j.pt() - {K}", "{K} - j.pt()", "j.pt() + {K}", "j.pt() * {K}", "j.pt() / {K}", "-{K}", "j.nTrk() - {K}", "{K} - {K}",
+           "(j.pt() - {K}) - {K}", "{K} if j.pt() > {K} else j.pt() - {K}", "abs({K}) - {K}"]
+    for k in negs:
+        for c in ctx:
+            if k == "-0.0" and "/" in c:
+                continue
+            for tags in (("literals", "negative"), ("literals", "negative", "fold_neg")):
+                out.append(make_program(f"Select(EventDataset('ds'), lambda e: e.PRIM('A').Select(lambda j: {c.replace('{K}', k)}))".replace("PRIM", P), backend, tags=tags))
+        for tags in (("literals", "negative"), ("literals", "negative", "fold_neg")):
+            out.append(make_program(f"Select(EventDataset('ds'), lambda e: e.PRIM('A').Where(lambda j: j.pt() - {k} > {k}).Count())".replace("PRIM", P), backend, tags=tags))
     return out
 
 
@@ -761,6 +855,26 @@ def c10_programs(backend):
     # collection returned by a method of a returned object
     prog("Select(EventDataset('ds'), lambda e: e.PRIM('A').Select(lambda j: j.obj1().cv().Select(lambda v: v * 2)))",
          [(E, obj[1]), (T, MethodSpec("cv", colls["cv"]))], tags=("chain-coll",))
+    # declared tree_type: a leaf column (scalar, per-event array, nested array, tuple/dict member, First()) carries the tree type;
+    # inside arithmetic the value has its return type (value-preserving widenings only, so rows are unaffected)
+    for mname, rkind, tt in (("ptf", "float", "double"), ("nTrk", "int", "double"), ("isGood", "bool", "int"), ("nHits", "int", "long")):
+        if tt == "long":
+            continue     # 'long' is not a kind the C++ subset's schema knows; kept out of the claim
+        ms = MethodSpec(mname, TNum(rkind), tree_type=tt)
+        S_ = v["sec"]
+        forms = [
+            f"Select(SelectMany(EventDataset('ds'), lambda e: e.PRIM('A')), lambda j: j.{mname}())",
+            f"Select(EventDataset('ds'), lambda e: e.PRIM('A').Select(lambda j: j.{mname}()))",
+            f"Select(EventDataset('ds'), lambda e: e.PRIM('A').Select(lambda j: e.{S_}('B').Select(lambda t: j.{mname}())))",
+            f"Select(EventDataset('ds'), lambda e: (e.PRIM('A').Select(lambda j: j.{mname}()), e.PRIM('A').Count()))",
+            f"Select(EventDataset('ds'), lambda e: {{'a': e.PRIM('A').Select(lambda j: j.pt()), 'b': e.PRIM('A').Select(lambda j: j.{mname}())}})",
+            f"Select(SelectMany(EventDataset('ds'), lambda e: e.PRIM('A')), lambda j: (j.{mname}(), j.pt()))",
+            f"Select(Where(EventDataset('ds'), lambda e: e.PRIM('A').Count() > 0), lambda e: e.PRIM('A').First().{mname}())",
+            f"Select(EventDataset('ds'), lambda e: e.PRIM('A').Where(lambda j: j.pt() > 1.5).Select(lambda j: j.{mname}()))",
+        ]
+        # (what column type an arithmetic expression over such a value gets is not stated by the property: not asserted)
+        for q in forms:
+            prog(q, [(E, ms)], tags=("tree_type", mname))
     # enums: argument, comparison
     en = {"xAOD.Jet.Color": ("xAOD.Jet", ["Red", "Blue"])}
     prog("Select(EventDataset('ds'), lambda e: e.PRIM('A').Where(lambda j: j.color() == xAOD.Jet.Color.Red).Count())", [(E, MethodSpec("color", TNum("int")))], enums=en, tags=("enum", "compare"))
@@ -768,6 +882,14 @@ def c10_programs(backend):
     prog("Select(EventDataset('ds'), lambda e: e.PRIM('A').Select(lambda j: j.weight(xAOD.Jet.Color.Blue) if j.color() != xAOD.Jet.Color.Red else 0.0))", [(E, MethodSpec("color", TNum("int")))], enums=en, tags=("enum", "both"))
     en1 = {"Top.Kind": ("Top", ["A", "B"])}
     prog("Select(EventDataset('ds'), lambda e: e.PRIM('A').Select(lambda j: j.weight(Top.Kind.B)))", [], enums=en1, tags=("enum", "1level"))
+    # deeper namespaces: every qualifier must survive
+    for depth, ns in ((3, "xAOD.JetAttribute.Detail"), (4, "a.bb.ccc.dddd")):
+        enn = {ns + ".Algo": (ns, ["AntiKt", "CamKt"])}
+        prog(f"Select(EventDataset('ds'), lambda e: e.PRIM('A').Where(lambda j: j.algo() == {ns}.Algo.AntiKt).Count())", [(E, MethodSpec("algo", TNum("int")))], enums=enn, tags=("enum", f"{depth}level", "compare"))
+        prog(f"Select(EventDataset('ds'), lambda e: e.PRIM('A').Select(lambda j: j.weight({ns}.Algo.CamKt)))", [], enums=enn, tags=("enum", f"{depth}level", "argument"))
+    # two enums in sibling namespaces with a common prefix and equal value names
+    en2 = {"xAOD.Jet.Color": ("xAOD.Jet", ["Red", "Blue"]), "xAOD.Track.Color": ("xAOD.Track", ["Red", "Green"])}
+    prog("Select(EventDataset('ds'), lambda e: e.PRIM('A').Select(lambda j: j.weight(xAOD.Jet.Color.Red) + j.weight(xAOD.Track.Color.Red)))", [], enums=en2, tags=("enum", "siblings"))
     return out
 
 
@@ -900,8 +1022,8 @@ def c09_programs(backend, tier):
         for gft in num_grafts:
             if "@NX" in h:
                 g2 = gft.replace("j.", "x.").replace("(j", "(x").replace(" j ", " x ").replace("j /", "x /").replace("/ j", "/ x")
-                if "x.pt()" in g2 or "x.n" in g2 or "x.vals" in g2:
-                    continue        # x is a number in that host
+                if "x.pt()" in g2 or "x.n" in g2 or "x.vals" in g2 or re.search(r"\bj\b", gft.replace("j.", "")):
+                    continue        # x is a number in that host: method calls on it / object arithmetic grafts do not apply
                 add(h.replace("@NX", g2), ("must_raise", "graft"))
             else:
                 add(h.replace("@N", gft), ("must_raise", "graft"))
